@@ -399,7 +399,8 @@ def site_replay(R, I):
             reproduced = True; break
         R.notes.append(f'site witness for {what} did not reproduce: predicted {pred}, real {real["cycles"]}')
     if not reproduced:
-        reproduced = root_hop_menu(R)
+        import menu
+        reproduced = root_hop_menu(R) or menu.run(R, {'signatures'}, 'signature threshold at the call sites')
     for cx in site_cx: cx['site_replayed'] = reproduced
 
 def root_hop_menu(R):
